@@ -74,14 +74,23 @@ pub fn job_c10(out_dir: &str, tier: &str, seed: u64) {
                 if quick && chunk == 1 && case.input.len() > 200 && prealloc != 0 { continue; }
                 let cuts: Vec<usize> = (1..).map(|i| i * chunk).take_while(|&c| c < case.input.len()).collect();
                 let base = crate::gen::merge(&case.cfg, &json!({"strict": false}));
-                // the need: usage of the unlimited run
-                let free = one_run(&crate::gen::merge(&base, &json!({"mem": {"prealloc": prealloc}})), &case.input, &cuts, case.opens);
-                let need = free["calls"].as_array().unwrap().iter().map(|c| c["usage"].as_u64().unwrap_or(0)).max().unwrap_or(0) as usize;
+                // the need: the smallest limit under which the whole run succeeds, found black-box by bisection
+                // (not read from the accounting, which is what is being checked)
+                let succeeds = |mx: usize| -> bool {
+                    let cfg = crate::gen::merge(&base, &json!({"mem": {"max": mx, "prealloc": prealloc, "graceful": false}}));
+                    one_run(&cfg, &case.input, &cuts, case.opens)["res"] == "ok"
+                };
+                let mut hi = prealloc.max(16);
+                while !succeeds(hi) && hi < (1 << 26) { hi *= 2; }
+                let mut lo = prealloc;
+                while lo < hi { let mid = (lo + hi) / 2; if succeeds(mid) { hi = mid; } else { lo = mid + 1; } }
+                let need = hi;
                 let mut ms: Vec<usize> = Vec::new();
                 let mut m = prealloc.max(1);
                 while m < need { ms.push(m); m = m * 3 / 2 + 1; }
                 for d in 0..=16usize { if need + 8 >= d && need + 8 - d >= prealloc { ms.push(need + 8 - d); } }
                 ms.push(prealloc);
+                ms.push(need * 2 + 1000);
                 ms.sort_unstable(); ms.dedup();
                 // a few limits twice (determinism)
                 let dup: Vec<usize> = (0..3).map(|_| *rng.pick(&ms)).collect();
